@@ -93,7 +93,7 @@ CHECKS = {
    "Trusted base: harness BER reader (classification of 'definitely not an envelope'), SIM. A panic in the caller's task on a well-enveloped ill-formed result is outside the statement and only labelled.",
    "DESIGN.md §3 C11, Appendix D", "harness"),
  "C17": ("fault_enumeration",
-   "exhaustive enumeration of the establishment fault product (scheme x verification x server certificate x StartTLS reply x post-reply behaviour, 210 cells) with generated parameters per cell, against an adversarial TLS server on real loopback sockets that records every raw byte",
+   "exhaustive enumeration of the establishment fault product (scheme x verification x server certificate x StartTLS reply x post-reply behaviour, 225 cells) with generated parameters per cell, against an adversarial TLS server on real loopback sockets that records every raw byte",
    "Every adversarial establishment behaviour is enumerated (StartTLS replies: success, non-zero code with the server still ready to handshake, garbage, close, non-extended response, a foreign-id success ahead of the real refusal; plus a 28-code sweep; the settings object is built in five ways: new()/default() base, two builder-call orders, a clone, the blocking API); oracle: only the StartTLS request and TLS records travel in cleartext, Ok iff TLS was really established under the effective trust settings, operations after Ok travel inside TLS and never see forged cleartext responses; a client-side hang until the guard is a violation because the scripted server always acts immediately.",
    "Trusted base: native-tls/OpenSSL acceptor, committed test PKI (/verif/tls), harness BER/request decoder. Real sockets and wall time; env-* problems (bind, 20 s guard) yield exit 2.",
    "DESIGN.md §3 C17", "harness"),
